@@ -898,8 +898,8 @@ def run(ctx):
                     "not a Rust identifier although its forms are valid keys (`in_one` + `in_other`); the repaired code returns "
                     "Error::InvalidKey (fixes/C09-plural-base-key-not-identifier.diff)", "plural-base-not-identifier")
     lone = [m for m in cross_fail]
-    rt_lone = [f for f in rtres["select_fail"] if f["key"] == "solo"]
-    rt_other = [f for f in rtres["select_fail"] if f["key"] != "solo"]
+    rt_lone = [f for f in rtres["select_fail"] if f["key"] == "solo" and f["locale"] == "ja"]
+    rt_other = [f for f in rtres["select_fail"] if not (f["key"] == "solo" and f["locale"] == "ja")]
     if lone or rt_lone:
         lone.sort(key=lambda m: sum(len(v) for v in m["locales"].values()))
         report_spec("lone_other", lone + rt_lone,
